@@ -190,7 +190,15 @@ func Intersection(a0, a1, b0, b1 Point) Point {
 	//
 	//  - intersectionExact computes the intersection point using precision
 	//    arithmetic and converts the final result back to a Point.
-	pt, ok := intersectionStable(a0, a1, b0, b1)
+	//
+	// Both methods are sign-symmetric in their arguments only up to rounding
+	// and, for exactly collinear edges, up to the symbolic perturbations used
+	// by the exact predicates. To make the result independent of the order in
+	// which the caller passes the edges and their endpoints, the arguments are
+	// put into a canonical order once, and everything below (both methods and
+	// the sign correction) works on that canonical tuple.
+	a0, a1, b0, b1 = canonicalEdges(a0, a1, b0, b1)
+	pt, ok := intersectionStableSorted(a0, a1, b0, b1)
 	if !ok {
 		pt = intersectionExact(a0, a1, b0, b1)
 	}
@@ -284,6 +292,30 @@ func compareEdges(a0, a1, b0, b1 Point) bool {
 	return a0.Cmp(b0.Vector) == -1 || (a0 == b0 && b0.Cmp(b1.Vector) == -1)
 }
 
+// canonicalEdges returns the edges (a0,a1) and (b0,b1) in a canonical order
+// that depends neither on the order of the two edges nor on the order of the
+// endpoints within each edge: the endpoints of each edge are sorted
+// lexicographically, and the longer edge comes first, breaking ties with
+// compareEdges. Putting the longer edge first is desirable for two reasons:
+//   - So that the result doesn't change when edges are swapped or reversed.
+//   - It reduces error, since the first edge is used to compute the edge
+//     normal (where a longer edge means less error), and the second edge
+//     is used for interpolation (where a shorter edge means less error).
+func canonicalEdges(a0, a1, b0, b1 Point) (Point, Point, Point, Point) {
+	if a0.Cmp(a1.Vector) != -1 {
+		a0, a1 = a1, a0
+	}
+	if b0.Cmp(b1.Vector) != -1 {
+		b0, b1 = b1, b0
+	}
+	aLen2 := a1.Sub(a0.Vector).Norm2()
+	bLen2 := b1.Sub(b0.Vector).Norm2()
+	if aLen2 < bLen2 || (aLen2 == bLen2 && compareEdges(a0, a1, b0, b1)) {
+		return b0, b1, a0, a1
+	}
+	return a0, a1, b0, b1
+}
+
 // intersectionStable returns the intersection point of the edges (a0,a1) and
 // (b0,b1) if it can be computed to within an error of at most intersectionError
 // by this function.
@@ -292,18 +324,7 @@ func compareEdges(a0, a1, b0, b1 Point) bool {
 // choose to use the longest of the two edges first. The sign is corrected by
 // Intersection.
 func intersectionStable(a0, a1, b0, b1 Point) (Point, bool) {
-	// Sort the two edges so that (a0,a1) is longer, breaking ties in a
-	// deterministic way that does not depend on the ordering of the endpoints.
-	// This is desirable for two reasons:
-	//  - So that the result doesn't change when edges are swapped or reversed.
-	//  - It reduces error, since the first edge is used to compute the edge
-	//    normal (where a longer edge means less error), and the second edge
-	//    is used for interpolation (where a shorter edge means less error).
-	aLen2 := a1.Sub(a0.Vector).Norm2()
-	bLen2 := b1.Sub(b0.Vector).Norm2()
-	if aLen2 < bLen2 || (aLen2 == bLen2 && compareEdges(a0, a1, b0, b1)) {
-		return intersectionStableSorted(b0, b1, a0, a1)
-	}
+	a0, a1, b0, b1 = canonicalEdges(a0, a1, b0, b1)
 	return intersectionStableSorted(a0, a1, b0, b1)
 }
 
